@@ -5,7 +5,7 @@ Runs in the agent's scratch worktree /tmp/wt/<ID> (never in /repo).
 """
 import json, os, shutil, subprocess, sys, time
 pid, var = sys.argv[1], sys.argv[2]
-wt = f"/tmp/wt/{pid}"
+wt = f"{os.environ.get('SEED_ROOT', '/tmp/wt')}/{pid}"
 seed = f"{wt}/_seed/{var}"
 env = dict(os.environ, PYTHONPATH=f"{wt}/src", HOME=f"/tmp/seedhome_{pid}{var}")
 os.makedirs(env["HOME"], exist_ok=True)
